@@ -1037,6 +1037,45 @@ fn c16_eval(sc: &str, case: &AnyCase, st: &mut RunStats, _t: Tier) -> Vec<Violat
     out
 }
 
+// ================================================================ C17
+
+fn c17_scen(t: Tier) -> Vec<(&'static str, u64)> {
+    vec![("schedules", t.pick(12_000, 600_000)), ("equivalent-paths", t.pick(60_000, 1_500_000))]
+}
+fn c17_gen(sc: &str, rng: &mut Rng, t: Tier, _i: u64) -> AnyCase {
+    if sc == "equivalent-paths" {
+        let mut k = knobs_functional(t);
+        k.enc_api_pct = 35;
+        k.meta_pct = 60;
+        k.invalid_pct = 6;
+        k.audio_pct = 70;
+        loop {
+            let (base, _) = gen::gen_prog(rng, &k);
+            if let Some((variant, what)) = crate::conc::equivalent_variant(&base, rng) {
+                return AnyCase::Conc(crate::conc::ConcCase { scripts: vec![base, variant], threads: 0, clock0: 0, entropy: vec![], sched_seed: 0, decisions: vec![], ctime_now: vec![], pair: Some(what.to_string()) });
+            }
+        }
+    }
+    AnyCase::Conc(crate::conc::gen(rng))
+}
+fn c17_eval(_sc: &str, case: &AnyCase, st: &mut RunStats, _t: Tier) -> Vec<Violation> {
+    match case {
+        AnyCase::Conc(c) => match &c.pair {
+            Some(what) if c.scripts.len() == 2 => crate::conc::eval_pair(&c.scripts[0], &c.scripts[1], what, st),
+            _ => crate::conc::eval(c, st),
+        },
+        _ => panic!("harness: expected a concurrency case"),
+    }
+}
+
+const STUB_CONC: &[&str] = &[
+    "thread scheduler (real OS threads parked on a condvar, released one at a time by a seeded baton scheduler; yield points before every API call and inside every simulated sink write)",
+    "wall clock (clock_gettime defined in the harness binary; jumps between ops, seconds to millennia, both directions)",
+    "OS entropy (getrandom defined in the harness binary; per-thread seed, decides std's RandomState of the thread-local invariant log)",
+    "sink (SimSink, Vec<u8>, Cursor<&mut Vec<u8>>, &mut Vec<u8>, Box<dyn Write + Send>, BufWriter<SimSink>)",
+];
+const FK_CONC: &[&str] = &["clock_jump", "resume_inside_sink_write", "thread_migration", "entropy_reseed_per_thread"];
+
 // ================================================================ registry
 
 macro_rules! def {
@@ -1085,6 +1124,9 @@ pub static ALL: &[CheckDef] = &[
     def!("C16", "exploration", c16_scen, c16_gen, c16_eval,
         "boundary-biased histories: inter-frame gaps at 2^32-2..2^32+2 ticks, totals crossing 2^32 ticks (>= 3 frames) and 2^32 ms (>= 92 frames), |pts-dts| around 2^31, parameter sets of 65533..65537 bytes, dimensions 65535/65536/2^31/2^32-1, AAC rates >= 65536, channel counts >= 256, timestamps at 2^53 ticks and beyond u64, audio gaps/totals at 2^32; fragmented: DTS gaps at 2^32, offsets at 2^31, decode times at 2^32/2^53/2^64-1e5, large parameter sets; every decoded numeric field is recomputed from the model in i128 or the producing call must have failed; non-trivial = every run that finished or was refused; distinct = distinct abstract trace",
         &[], STUB_PROG, false),
+    CheckDef { id: "C17", level: "exploration", scenarios: c17_scen, gen: c17_gen, eval: c17_eval,
+        rule: "scenario 'schedules': 1..8 muxer scripts x 1..16 real threads; a seeded scheduler decides at every API call and every sink write which thread continues and which muxer it takes (muxers migrate between threads by value), the wall clock jumps between decisions, every thread gets its own entropy seed, sink types vary; every return value and the final bytes of every script must equal its solo reference run; the library may read the clock only in with_current_time(); scenario 'equivalent-paths': pairs of histories that differ by one equivalent API path must give identical files; non-trivial = schedule with >= 2 decisions / pair executed; distinct = distinct (muxers, threads, sink kinds, first 64 decisions) resp. (transformation, abstract trace); states = distinct complete schedules",
+        fault_kinds: FK_CONC, real: REAL_LIB, stubbed: STUB_CONC, assumptions: ASSUME_READER, exhaustive_quick: false, slow_ok: false },
     def!("C15", "exploration", c15_scen, c15_gen, c15_eval,
         "A/V histories with adversarial submission order (all audio last/first, alternation, bursts, equal timestamps); offsets increase within each track, and for non-reordered streams global storage order = stable merge by (tick timestamp, video first); non-trivial = finished with audio and >= 2 video samples; distinct = distinct abstract trace",
         &[], STUB_PROG, false),
